@@ -665,6 +665,12 @@ impl<'a, 'b> Ev<'a, 'b> {
             }
             Tail::Incomplete { must_wait: false } => {}
             Tail::Lenient | Tail::Invalid => {
+                // bytes that are malformed under every reading denote no value: a decoder that returns one made it up
+                // (a wrapped length accumulator, say, turns a length of 2^64+5 into 5)
+                if rs.tail == Tail::Invalid && extra > 0 {
+                    self.flag(format!("C15/value-from-malformed-frame/{}", who), format!("{} on {} ({}): returned {} ending at byte {} although bytes {}.. are malformed under every reading of the grammar ({})", who, show(b), how, show_v(&d.frames[nref].0), d.frames[nref].1, at, rs.anomaly), Some(b));
+                    return;
+                }
                 if streaming && extra == 0 {
                     if let End::NeedMore { .. } = &d.end {
                         let l = self.label(who, b, rs, Fail::Stuck);
@@ -979,7 +985,16 @@ impl C15 {
         let nf = fields.len();
         for (fi, (a, e, t)) in fields.iter().enumerate() {
             if nf > 24 { h = mix(h, fi as u64); if h % (nf as u64 / 12).max(2) != 0 { continue; } }
-            for r in REPL {
+            // besides the fixed hostile values: the field's own value shifted by 2^32, 2^63 and 2^64 (a hand-rolled
+            // accumulator that wraps lands exactly on the original length and decodes the frame as if nothing were wrong),
+            // with a plus sign, with a leading zero
+            let own: Vec<Vec<u8>> = match std::str::from_utf8(&s[*a..*e]).ok().and_then(|x| x.parse::<u64>().ok()) {
+                Some(n) => vec![format!("{}", (1u128 << 64) + n as u128).into_bytes(), format!("{}", (1u128 << 63) + n as u128).into_bytes(), format!("{}", (1u128 << 32) + n as u128).into_bytes(), format!("+{}", (1u128 << 64) + n as u128).into_bytes(), format!("+{}", n).into_bytes(), format!("0{}", n).into_bytes()],
+                None => vec![],
+            };
+            if !own.is_empty() { ev.probe("length_field_shifted_by_a_power_of_two"); }
+            for r in REPL.iter().map(|r| r.to_vec()).chain(own.into_iter()) {
+                let r = &r[..];
                 if ev.stop { return; }
                 let mut m = s[..*a].to_vec(); m.extend_from_slice(r); m.extend_from_slice(&s[*e..]);
                 if let Some((mrs, mwhole)) = ev.eval_whole(&m) {
